@@ -249,6 +249,13 @@ pub fn gen(tier: &str, seed: u64, out: &mut dyn FnMut(Value)) {
         out(json!({"op": "roundtrip", "ns": chunk, "tag": "Display then parse", "nt": true}));
     }
     // 0x-prefixed text
+    // decimal texts at and beyond the edges of the 64-bit ranges: in range they are that number, beyond it an error
+    {
+        let ds = ["0", "-0", "1", "-1", "9223372036854775807", "9223372036854775808", "-9223372036854775808", "-9223372036854775809", "18446744073709551615", "18446744073709551616",
+                  "18446744073709551658", "36893488147419103232", "-18446744073709551616", "340282366920938463463374607431768211455", "340282366920938463463374607431768211456",
+                  "-170141183460469231731687303715884105728", "-170141183460469231731687303715884105729", "00000000000000000000000000000018446744073709551615", "+1", "+18446744073709551616", "1e3", "١٢٣"];
+        out(json!({"op": "hexparse", "ts": ds, "tag": "decimal text at the range edges", "nt": true}));
+    }
     let mut ts: Vec<String> = vec!["0x0".into(), "0xff".into(), "0xFF".into(), "0xffffffffffffffff".into(), "0x10000000000000000".into(), "0x".into(), "0xg".into(), "0x+1".into(), "0x-1".into(), "0X1".into(), "0x 1".into(), "0x1_0".into(), "0x00000000000000000001".into()];
     for _ in 0..(if thorough { 100000 } else { 8000 }) {
         ts.push(format!("0x{:x}", rng.next() >> rng.below(64)));
@@ -285,7 +292,7 @@ pub fn gen(tier: &str, seed: u64, out: &mut dyn FnMut(Value)) {
         }
     }
     // text, paths, options
-    let ss = ["", "a", "C:\\Windows\\System32", "/tmp/a\\b", "\\", "\\\\host\\share\\", "a/b\\c/d", "//", "/./x/../y", "~/x", "a\tb", "/bin/ls", "\u{e9}\u{10ffff}", "none", "42", " spaced ", "a\nb", "\"q\"", "8.8.8.8"];
+    let ss = ["", "a", "C:\\Windows\\System32", "/tmp/a\\b", "\\", "\\\\host\\share\\", "a/b\\c/d", "//", "/./x/../y", "~/x", "a\tb", "/bin/sh\0", "\0", "a\0\0", "\0a", " a ", "/bin/ls", "\u{e9}\u{10ffff}", "none", "42", " spaced ", "a\nb", "\"q\"", "8.8.8.8"];
     out(json!({"op": "textconv", "ss": ss, "tag": "text / path / Option", "nt": true}));
     // paths by their bytes, valid UTF-8 or not; the expected text is std's lossy decoding
     let mut paths = vec![];
